@@ -177,6 +177,88 @@ func (w *vqWorld) snapshot() (map[int]bool, map[int]int) {
 	return in, pr
 }
 
+// vqNoIndex replays a vector on a queue whose setIndex callback is nil.
+func vqNoIndex(vec [][]json.RawMessage) (why string) {
+	defer func() {
+		if r := recover(); r != nil {
+			why = fmt.Sprintf("panic: %v", r)
+		}
+	}()
+	items := map[int]*vqItem{}
+	for i := 1; i <= 8; i++ {
+		items[i] = &vqItem{id: i, prio: 1, idx: -1}
+	}
+	q := NewQueue(func(x, y interface{}) bool { return x.(*vqItem).prio < y.(*vqItem).prio }, nil)
+	in := map[int]bool{}
+	prevA := []int{}
+	pos := func(x int) int {
+		for i, id := range prevA {
+			if id == x {
+				return i
+			}
+		}
+		return -1
+	}
+	for k, st := range vec {
+		var op string
+		var x, p, r int
+		var a []int
+		json.Unmarshal(st[0], &op)
+		json.Unmarshal(st[1], &x)
+		json.Unmarshal(st[2], &p)
+		json.Unmarshal(st[3], &r)
+		json.Unmarshal(st[4], &a)
+		switch op {
+		case "Push":
+			items[x].prio = p
+			q.Push(items[x])
+			in[x] = true
+		case "Pop", "Min":
+			var got *vqItem
+			if op == "Pop" {
+				got = q.Pop().(*vqItem)
+			} else {
+				got = q.Min().(*vqItem)
+			}
+			for y := range in {
+				if items[y].prio < got.prio {
+					return fmt.Sprintf("step %d: %s returned id %d (prio %d) but id %d has prio %d", k+1, op, got.id, got.prio, y, items[y].prio)
+				}
+			}
+			if op == "Pop" {
+				delete(in, got.id)
+				if got.id != r { // another minimal element than the transcription's: later positions are not comparable
+					return ""
+				}
+			}
+		case "Fix":
+			items[x].prio = p
+			q.Fix(pos(x))
+		case "Remove":
+			q.Remove(pos(x))
+			delete(in, x)
+		}
+		if q.Len() != len(in) {
+			return fmt.Sprintf("step %d (%s): Len() = %d, %d elements expected", k+1, op, q.Len(), len(in))
+		}
+		prevA = a
+	}
+	last := -1 << 30
+	seen := 0
+	for q.Len() > 0 {
+		it := q.Pop().(*vqItem)
+		if it.prio < last || !in[it.id] {
+			return fmt.Sprintf("drain: popped id %d prio %d after prio %d (expected members %v)", it.id, it.prio, last, keys(in))
+		}
+		last = it.prio
+		seen++
+	}
+	if seen != len(in) {
+		return fmt.Sprintf("drain: %d elements popped, %d expected", seen, len(in))
+	}
+	return ""
+}
+
 // vqContinuations replays prefix on a fresh queue, then every sequence of 0..3 pushes of fresh ids
 // (priorities 1..3), then pops everything; returns the first contract failure.
 func vqContinuations(prefix [][]json.RawMessage) string {
@@ -326,6 +408,14 @@ func TestVerifPQReplay(t *testing.T) {
 		}
 		if swaps {
 			ac.nontrivial++
+		}
+		// the same behaviour on a queue built WITHOUT an index callback (the classifier's own queues are): positions come
+		// from the spec's heap array of the step before
+		if why := vqNoIndex(vec); why != "" {
+			ac.bad++
+			if ac.bad <= 3 {
+				out.Emit(map[string]interface{}{"kind": "mismatch", "vector": json.RawMessage(raw), "step": 0, "why": "queue without setIndex: " + why})
+			}
 		}
 	})
 	tot := &acc{ops: map[string]int{}}
